@@ -15,7 +15,7 @@ func notYet(id string) {
 }
 
 func init() {
-	for _, id := range []string{"C05", "C08"} {
+	for _, id := range []string{"C08"} {
 		notYet(id)
 	}
 	claim("C06", "other",
@@ -89,4 +89,5 @@ func init() {
 		"Decided: R-TAGSTATE(xml), R-SPELL(xml). Not decided: token-per-construct conformance (value-level). Note: an embedded NUL is reported as an error (never a silent end) but is then reported forever: see the C01 known finding.")
 	claim("C03", "other", "(in progress) parser path rules", "", "typestate dataflow over SSA paths", "DESIGN.md 4/C03", "in progress")
 	claim("C04", "other", "(in progress) scope pairing rules", "", "typestate dataflow over SSA paths", "DESIGN.md 4/C04", "in progress")
+	claim("C05", "other", "(in progress)", "", "dominance rules on SSA", "DESIGN.md 4/C05", "in progress")
 }
